@@ -29,6 +29,8 @@ pub struct Shared {
     pub delivered: u64,
     /// `react <frame> <k> <op>` entries.
     pub reacts: Vec<(u64, u64, LifeOp)>,
+    /// `reactev <frame> <e> <a> <kind> <op>` entries with their "already fired" flag.
+    pub reactevs: Vec<(u64, u32, usize, String, LifeOp, bool)>,
     /// `post <op>` entries waiting for the next frame.
     pub posts: Vec<LifeOp>,
     /// `key` ops issued in `inject first` mode, waiting for the next frame's `First`.
